@@ -307,6 +307,106 @@ func (g *gen) geomNode(ct geom.CoordinatesType, depth int, emptyP int, force int
 	return n
 }
 
+// minsize builds geometries whose TWKB is as short as the format allows: Multi* and collections in
+// which empty members dominate (k empty members and one short non-empty one, at any position),
+// MultiPoints of many points with one-byte deltas, at top level or as the LAST member of a
+// collection (a count guard that over-estimates the size of a member only bites when nothing
+// follows). All ordinates are tiny integers.
+func (g *gen) minsize(ct geom.CoordinatesType) *lib.Node {
+	r := g.r
+	g.q, g.mag, g.unit = 0, 20, 1
+	tiny := func() [4]float64 {
+		var v [4]float64
+		v[0], v[1] = float64(r.Range(-9, 9)), float64(r.Range(-9, 9))
+		if ct.Is3D() {
+			v[2] = float64(r.Range(-9, 9))
+		}
+		if ct.IsMeasured() {
+			v[3] = float64(r.Range(-9, 9))
+		}
+		return v
+	}
+	pt := func() *lib.Node { return &lib.Node{Kind: lib.KPoint, CT: ct, Full: true, C: [][4]float64{tiny()}} }
+	shortLine := func() *lib.Node {
+		a := tiny()
+		b := a
+		b[0] += float64(r.Range(1, 5))
+		b[1] += float64(r.Range(1, 5))
+		return &lib.Node{Kind: lib.KLine, CT: ct, C: [][4]float64{a, b}}
+	}
+	triangle := func() *lib.Node {
+		a := tiny()
+		b, c := a, a
+		b[0] += 4
+		c[1] += 4
+		if ct.Is3D() {
+			b[2], c[2] = a[2]+1, a[2]-1
+		}
+		ring := &lib.Node{Kind: lib.KLine, CT: ct, C: [][4]float64{a, b, c, a}}
+		return &lib.Node{Kind: lib.KPoly, CT: ct, Kids: []*lib.Node{ring}}
+	}
+	emptyOf := func(k lib.Kind) *lib.Node { return &lib.Node{Kind: k, CT: ct} }
+	// k empty members with one non-empty member at a random position
+	mix := func(kind lib.Kind, empty func() *lib.Node, full func() *lib.Node) *lib.Node {
+		n := &lib.Node{Kind: kind, CT: ct}
+		k := r.Range(1, 7)
+		pos := r.Intn(k + 1)
+		for i := 0; i <= k; i++ {
+			if i == pos {
+				n.Kids = append(n.Kids, full())
+			} else {
+				n.Kids = append(n.Kids, empty())
+			}
+		}
+		if r.Chance(1, 4) {
+			n.Kids = append(n.Kids, full())
+		}
+		return n
+	}
+	var core *lib.Node
+	switch r.Intn(5) {
+	case 0:
+		core = mix(lib.KMLine, func() *lib.Node { return emptyOf(lib.KLine) }, shortLine)
+	case 1:
+		core = mix(lib.KMPoly, func() *lib.Node { return emptyOf(lib.KPoly) }, triangle)
+	case 2:
+		// collection of empties of all kinds and one point
+		core = mix(lib.KColl, func() *lib.Node { return emptyOf(lib.Kind(r.Intn(7))) }, pt)
+	case 3:
+		core = &lib.Node{Kind: lib.KMPoint, CT: ct}
+		for i, k := 0, r.Range(1, 12); i < k; i++ {
+			core.Kids = append(core.Kids, pt())
+		}
+	default:
+		// collection of empties with a short non-empty Multi* (itself mostly empty) somewhere
+		inner := mix(lib.KMLine, func() *lib.Node { return emptyOf(lib.KLine) }, shortLine)
+		core = mix(lib.KColl, func() *lib.Node { return emptyOf(lib.Kind(r.Intn(7))) }, func() *lib.Node { return inner })
+	}
+	g.stats["minsize_"+lib.KindTag[core.Kind]]++
+	switch r.Intn(4) {
+	case 0:
+		// last member of a collection, after 0..2 other members
+		n := &lib.Node{Kind: lib.KColl, CT: ct}
+		for i, k := 0, r.Intn(3); i < k; i++ {
+			if r.Bool() {
+				n.Kids = append(n.Kids, pt())
+			} else {
+				n.Kids = append(n.Kids, emptyOf(lib.Kind(r.Intn(7))))
+			}
+		}
+		n.Kids = append(n.Kids, core)
+		g.stats["minsize_last_member"]++
+		return n
+	case 1:
+		// last member of a collection nested in a collection
+		inner := &lib.Node{Kind: lib.KColl, CT: ct, Kids: []*lib.Node{emptyOf(lib.KPoint), core}}
+		g.stats["minsize_nested_last"]++
+		return &lib.Node{Kind: lib.KColl, CT: ct, Kids: []*lib.Node{pt(), inner}}
+	}
+	g.stats["minsize_top"]++
+	return core
+}
+
 func ip(v int) *int { return &v }
 
 func memberCount(n *lib.Node) int {
@@ -459,6 +559,8 @@ func main() {
 			class = "f19"
 		case 19:
 			class = "emptyheavy"
+		case 1, 5, 9, 15:
+			class = "minsize" // minimum-size encodings: where count guards bite
 		}
 		classes[class]++
 		g.q = r.Range(0, 7)
@@ -495,6 +597,8 @@ func main() {
 			if r.Bool() {
 				n = &lib.Node{Kind: lib.KMPoly, CT: ct, Kids: []*lib.Node{n, g.polyAt(ct, 1000, 1000, 0)}}
 			}
+		} else if class == "minsize" {
+			n = g.minsize(ct)
 		} else {
 			n = g.geomNode(ct, 3, emptyP, force)
 		}
@@ -504,6 +608,19 @@ func main() {
 		}
 		if class == "big" {
 			o.pxy = r.Range(5, 7)
+		}
+		if class == "minsize" && !r.Chance(1, 5) {
+			// keep every delta in one byte; mostly without the headers that add trailing bytes
+			o.pxy = 0
+			if ct.Is3D() {
+				o.pz = ip(0)
+			}
+			if ct.IsMeasured() {
+				o.pm = ip(0)
+			}
+			if r.Chance(2, 3) {
+				o.size, o.bbox = false, false
+			}
 		}
 		precHist[o.pxy]++
 		if o.size {
